@@ -211,6 +211,27 @@ def rule_observer_purity(ctx: Ctx) -> None:
         bad = _impure(fn)
         ctx.ob("C04-2", "G2", fn, None, not bad, f"observer `{m}` must not push/pop/cancel events, move the clock or write simulation state"
                + ("" if not bad else ": " + "; ".join(bad)))
+    # queries asked once per loop iteration write nothing at all on the control object: the step budget counts *delivered* events, so it may
+    # be drawn only where a delivery is reported (an iteration that pops a cancelled event is not a step)
+    for m in ("_should_pause", "get_state", "peek_next", "find_events", "list_breakpoints"):
+        fn = prog.func(CTL, f"SimulationControl.{m}")
+        ws = [norm_stmt(s_) for s_ in walk_scope(fn.node, include_root=False) if isinstance(s_, (ast.Assign, ast.AugAssign, ast.AnnAssign))
+              and any((path_of(t_) or "").startswith("self.") for t_ in (s_.targets if isinstance(s_, ast.Assign) else [s_.target]))]
+        ctx.ob("C04-2", "G6", fn, "query writes nothing", not ws, f"SimulationControl.{m} is a query: it changes no field of the control object" + ("" if not ws else " — " + "; ".join(ws[:2])))
+    decs = []
+    for fn in prog.all_functions("happysimulator/core/"):
+        for s_ in walk_scope(fn.node, include_root=False):
+            if isinstance(s_, (ast.Assign, ast.AugAssign)) and any((path_of(t_) or "").endswith("._steps_remaining") for t_ in (s_.targets if isinstance(s_, ast.Assign) else [s_.target])):
+                k = increment_of(s_, path_of(s_.targets[0] if isinstance(s_, ast.Assign) else s_.target))
+                if isinstance(s_, ast.AugAssign) or k not in (None, "other"):
+                    decs.append((fn, s_, k))
+                else:
+                    okv = isinstance(s_.value, ast.Constant) and s_.value.value is None or (fn.name == "step" and path_of(s_.value) in fn.params())
+                    ctx.ob("C04-3", "G6", fn, s_, okv, f"{fn.qual}: the step budget is set to the requested count by step() and cleared (None) elsewhere")
+    okd = len(decs) == 1 and decs[0][0].qual.endswith("SimulationControl._notify_event_processed") and decs[0][2] == -1
+    ctx.ob("C04-3", "G6", decs[0][0] if decs else None, decs[0][1] if decs else "step budget decrement", okd,
+           "the step budget is drawn in exactly one place, by one, where a delivered event is reported (`_notify_event_processed`): step(n) delivers n events"
+           + ("" if okd else f" — decrements found in {[d[0].qual for d in decs]}"), relpath=CTL)
     for c in prog.module(BRK).classes.values():
         sb = c.methods.get("should_break")
         if sb is None or c.name == "Breakpoint":
@@ -219,6 +240,27 @@ def rule_observer_purity(ctx: Ctx) -> None:
         writes = [norm_stmt(s) for s in walk_stmts(sb.node.body) if isinstance(s, (ast.Assign, ast.AugAssign)) and any(
             (path_of(t) or "").startswith("context.") for t in (s.targets if isinstance(s, ast.Assign) else [s.target]))]
         ctx.ob("C04-2", "G2", sb, None, not bad and not writes, f"{c.name}.should_break is a pure predicate of the context" + ("" if not bad else ": " + "; ".join(bad + writes)))
+        # ... and of nothing else: the evaluation (should_break and the methods of the class it reaches) keeps no memory on the breakpoint,
+        # so the same breakpoint object gives the same answer for the same context whatever it was asked before (another run, another Simulation)
+        seen, todo, mem = set(), [sb], []
+        while todo:
+            m_ = todo.pop()
+            if m_.qual in seen:
+                continue
+            seen.add(m_.qual)
+            for st_ in walk_scope(m_.node, include_root=False):
+                if isinstance(st_, (ast.Assign, ast.AugAssign, ast.AnnAssign)):
+                    for t_ in (st_.targets if isinstance(st_, ast.Assign) else [st_.target]):
+                        if (path_of(t_) or "").startswith("self.") or (isinstance(t_, ast.Subscript) and (path_of(t_.value) or "").startswith("self.")):
+                            mem.append(f"{m_.name}: {norm_stmt(st_)}")
+                if isinstance(st_, ast.Call) and isinstance(st_.func, ast.Attribute):
+                    recv = path_of(st_.func.value) or ""
+                    if recv.startswith("self.") and st_.func.attr in ("append", "extend", "insert", "add", "update", "setdefault", "pop", "popitem", "clear", "remove", "discard", "appendleft", "popleft"):
+                        mem.append(f"{m_.name}: {unparse(st_)[:70]}")
+                    if recv == "self" and st_.func.attr in c.methods:
+                        todo.append(c.methods[st_.func.attr])
+        ctx.ob("C04-2", "G6", sb, "no memory", not mem, f"{c.name}: evaluating the breakpoint writes nothing on the breakpoint itself (a cached entity or counter would make the answer depend on "
+               "earlier evaluations — e.g. of a previous Simulation the object was attached to)" + ("" if not mem else " — " + "; ".join(mem[:2])))
     for c in prog.module(REC).classes.values():
         r = c.methods.get("record")
         if r is None:
